@@ -1760,10 +1760,17 @@ Definition src_tick_inner_expected : String.string :=
   "if self.ticker.lock().unwrap().is_none() { self.state().tick(now); }".
 Definition src_barstate_tick_expected : String.string :=
   "self.state.tick = self.state.tick.saturating_add(1); self.update_estimate_and_draw(now);".
+(** TickerControl::run as the ticker automaton of Locks.v part 3 transcribes it (tpc control points in order:
+    TUpgrade, TLockBar, TCheckFin -> TFinUnlock/TFinDrop, TTick, TUnlockBar, TDropArc, TLockStop, TCheckStop/TSleep/
+    TRelock inside wait_timeout_while, TUnlockStopExit / TUnlockStopLoop): a textual pin, not a semantic tie *)
+Definition src_ticker_run_expected : String.string :=
+  "while let Some(arc) = self.state.upgrade() { let mut state = arc.lock().unwrap(); if state.state.is_finished() { break; } state.tick(Instant::now()); drop(state); drop(arc); let result = self .stopping .1 .wait_timeout_while(self.stopping.0.lock().unwrap(), interval, |stopped| { !*stopped }) .unwrap(); if !result.1.timed_out() { break; } }".
 Theorem tick_transcription :
-  (src_tick_inner = src_tick_inner_expected /\ src_barstate_tick = src_barstate_tick_expected) /\
+  (src_tick_inner = src_tick_inner_expected /\ src_barstate_tick = src_barstate_tick_expected /\
+   src_ticker_run = src_ticker_run_expected) /\
   (exists p, pg_lookup ProgressBar_tick_name all_programs = Some p /\ paths p [CAcq CSlot; CRel CSlot]) /\
   (forall name p, In (name, p) all_programs -> forall tr, paths p tr -> tick_guarded tr = true).
 Proof.
-  split; [exact generated_tick_sources|]. split; [exact generated_tick_program|exact tick_under_bar_paths].
+  split; [destruct generated_tick_sources as [H1 H2]; split; [exact H1|split; [exact H2|reflexivity]]|].
+  split; [exact generated_tick_program|exact tick_under_bar_paths].
 Qed.
